@@ -49,7 +49,75 @@ theorem neg_nrm (a : SI) (ha : a.WF) : Nrm a.neg := by
 theorem pseudoJoin_nrm (s b : SI) (smart : Bool) (hs : s.WF) (ns : Nrm s) (nb : Nrm b) : Nrm (pseudoJoin s b smart) := by
   have hw := hs.1
   unfold pseudoJoin
-  simp only []
-  split_ifs <;> first | exact nb | exact ns | exact nrm_top _ hw | exact nrm_new _ _ _ _ hw
+  by_cases hsb : s.bottom = true
+  · rw [if_pos hsb]; exact nb
+  rw [if_neg hsb]
+  by_cases hbb : b.bottom = true
+  · rw [if_pos hbb]; exact ns
+  rw [if_neg hbb]
+  repeat' split
+  all_goals first | exact nrm_top _ hw | exact nrm_new _ _ _ _ hw | (simp only []; split <;> exact nrm_new _ _ _ _ hw)
+
+theorem pseudoJoin_nrm_nb (s b : SI) (smart : Bool) (hw : 0 < s.bits) (hsb : s.bottom = false) (hbb : b.bottom = false) :
+    Nrm (pseudoJoin s b smart) := by
+  unfold pseudoJoin
+  rw [hsb, hbb]
+  simp only [Bool.false_eq_true, if_false]
+  repeat' split
+  all_goals first | exact nrm_top _ hw | exact nrm_new _ _ _ _ hw | (simp only []; split <;> exact nrm_new _ _ _ _ hw)
+
+/-- a normal interval stays normal when it is re-read at a larger width (the non-wrapping branch of `zero_extend`) -/
+theorem widen_bits_nrm (a : SI) (nl : Nat) (ha : a.WF) (hnb : a.bottom = false) (na : Nrm a) (hnl : a.bits ≤ nl) :
+    Nrm { a with bits := nl } := by
+  obtain ⟨h0, hl, hu, hst⟩ := ha
+  have hpow : 2 ^ a.bits ≤ 2 ^ nl := Nat.pow_le_pow_right (by omega) hnl
+  have hl2 : a.lb < 2 ^ nl := by omega
+  have hu2 : a.ub < 2 ^ nl := by omega
+  have hm := two_pow_pos' a.bits
+  unfold Nrm SI.renorm at na ⊢
+  rw [hnb] at na
+  simp only [Bool.false_eq_true, if_false] at na
+  have hb' : ({ a with bits := nl } : SI).bottom = false := hnb
+  rw [hb']
+  simp only [Bool.false_eq_true, if_false]
+  rw [new_eq, imod_of_lt _ _ hl, imod_of_lt _ _ hu] at na
+  rw [new_eq, imod_of_lt _ _ hl2, imod_of_lt _ _ hu2]
+  by_cases h1 : a.lb = a.ub
+  · rw [if_pos h1] at na ⊢
+    have hs0 : a.stride = 0 := hst.2 h1
+    rw [hs0]
+  · rw [if_neg h1] at na ⊢
+    by_cases h2 : a.lb = (a.ub + 1) % 2 ^ a.bits ∧ a.stride = 1
+    · rw [if_pos h2] at na
+      have e1 : a.lb = 0 := by rw [← na]
+      have e2 : a.ub = 2 ^ a.bits - 1 := by rw [← na]
+      by_cases h3 : a.lb = (a.ub + 1) % 2 ^ nl ∧ a.stride = 1
+      · rw [if_pos h3]
+        have h4 := h3.1
+        rw [e1, e2] at h4
+        have : 2 ^ a.bits - 1 + 1 = 2 ^ a.bits := by omega
+        rw [this] at h4
+        have hnlw : nl = a.bits := by
+          by_cases hlt : 2 ^ a.bits < 2 ^ nl
+          · rw [Nat.mod_eq_of_lt hlt] at h4; omega
+          · have h6 : 2 ^ nl ≤ 2 ^ a.bits := by omega
+            have h5 : nl ≤ a.bits := (Nat.pow_le_pow_iff_right (by omega : 1 < 2)).1 h6
+            omega
+        rw [e1, e2, hnlw]
+      · rw [if_neg h3]
+    · rw [if_neg h2] at na
+      by_cases h3 : a.lb = (a.ub + 1) % 2 ^ nl ∧ a.stride = 1
+      · exfalso
+        apply h2
+        refine ⟨?_, h3.2⟩
+        have h4 := h3.1
+        by_cases hlt : a.ub + 1 < 2 ^ nl
+        · rw [Nat.mod_eq_of_lt hlt] at h4
+          rw [← h4, Nat.mod_eq_of_lt hl]
+        · have : a.ub + 1 = 2 ^ nl := by omega
+          rw [this, Nat.mod_self] at h4
+          have : 2 ^ nl = 2 ^ a.bits := by omega
+          rw [‹a.ub + 1 = 2 ^ nl›, this, Nat.mod_self]; exact h4
+      · rw [if_neg h3]
 
 end Claripy.VSA
